@@ -296,6 +296,7 @@ def disconnect_plan(U, op):
         if len(chosen['inlets']) != len(chosen['outlets']): expect = 'number of inlets must match number of outlets'
         else:
             for i, x in zip(chosen['inlets'], chosen['outlets']):
+                if getattr(x, '_sink', None) is u: return None                      # self-loop (also through a placeholder): the inlet is docked here again by design
                 if not is_real(x) or not is_real(i): continue
                 if x.sink is u: return None
                 if x.sink and any(y is i for y in x.sink.ins): return None
@@ -571,6 +572,8 @@ def execute(U, op):
     if o == 'unit.disconnect' and op.get('mode') == 'v2':
         u = U.units[op['u']]
         kw, expect, chosen = disconnect_plan(U, op)
+        # join_ends docks each chosen inlet where the paired outlet went; when that outlet fed this very unit (self-loop) the inlet is docked here again by design
+        rejoined = {id(a) for a, b in zip(chosen['inlets'], chosen['outlets']) if kw.get('join_ends') and getattr(b, '_sink', None) is u}
         try:
             u.disconnect(**kw)
         except ValueError as e:
@@ -578,7 +581,7 @@ def execute(U, op):
             raise
         if op.get('inlets') is not None:
             for x in chosen['inlets']:
-                if is_real(x) and any(y is x for y in u.ins): return 'unit.disconnect(inlets=...) left a chosen inlet docked'
+                if is_real(x) and id(x) not in rejoined and any(y is x for y in u.ins): return 'unit.disconnect(inlets=...) left a chosen inlet docked'
         if op.get('outlets') is not None:
             for x in chosen['outlets']:
                 if is_real(x) and any(y is x for y in u.outs): return 'unit.disconnect(outlets=...) left a chosen outlet docked'
@@ -595,10 +598,11 @@ def execute(U, op):
                 kw['inlets'] = [u.ins[i] for i in kw['inlets'] if is_real(u.ins[i])]; kw['outlets'] = [u.outs[i] for i in kw['outlets'] if is_real(u.outs[i])]
             chosen_in = [u.ins[i] if isinstance(i, int) else i for i in kw['inlets']]
             chosen_out = [u.outs[i] if isinstance(i, int) else i for i in kw['outlets']]
+        rejoined = {id(a) for a, b in zip(chosen_in, chosen_out) if kw.get('join_ends') and getattr(b, '_sink', None) is u} if op.get('inlets') is not None else set()
         u.disconnect(**kw)
         if op.get('inlets') is not None:
             for x in chosen_in:
-                if is_real(x) and any(y is x for y in u.ins): return 'unit.disconnect(inlets=...) left a chosen inlet docked'
+                if is_real(x) and id(x) not in rejoined and any(y is x for y in u.ins): return 'unit.disconnect(inlets=...) left a chosen inlet docked'
             for x in chosen_out:
                 if is_real(x) and any(y is x for y in u.outs): return 'unit.disconnect(outlets=...) left a chosen outlet docked'
         if 'inlets' not in kw and (any(is_real(x) for x in u.ins) or any(is_real(x) for x in u.outs)): return 'unit.disconnect left real streams docked'
